@@ -41,14 +41,30 @@ def line_case(rng, fail, place, npre):
           p.emit([p.id("errtab")]),
           p.localfunction("thrower2", p.func([], p.block([p.callstat(p.call(p.id("error"), [p.str("E2"), p.num(2)]))])))]
     body = []
+    if rng.random() < 0.5:
+        # the operands of the failing construct are registers of this very function (not upvalues):
+        # the construct's first instruction is then the one that fails
+        body.append(p.local(["nilv", "errtab", "obj", "thrower2"], [p.id("nilv"), p.id("errtab"), p.id("obj"), p.id("thrower2")]))
     for i in range(npre):
         c = rng.random()
-        if c < 0.4:
+        if c < 0.2:
             body.append(p.local(["pre%d" % i], [p.num(i)]))
-        elif c < 0.7:
+        elif c < 0.35:
             body.append(p.emit([p.str("pre"), p.num(i)]))
-        else:
+        elif c < 0.45:
             body.append(p.do(p.block([p.local(["q"], [p.num(i)]), p.emit([p.id("q")])])))
+        elif c < 0.6:       # statements ending in and/or, folded constants, concatenations, comparisons: the code
+            body.append(p.local(["pre%d" % i], [p.or_(p.field(p.id("obj"), "v"), p.num(10))]))       # generator pops / merges
+        elif c < 0.68:      # instructions at their end
+            body.append(p.local(["pre%d" % i], [p.and_(p.id("nilv"), p.num(1))]))
+        elif c < 0.76:
+            body.append(p.assign([p.id("gpre")], [p.or_(p.id("gpre"), p.bin("+", p.num(2), p.num(3)))]))
+        elif c < 0.84:
+            body.append(p.local(["pre%d" % i], [p.bin("..", p.str("a"), p.bin("..", p.str("b"), p.num(i)))]))
+        elif c < 0.92:
+            body.append(p.local(["pre%d" % i], [p.bin("==", p.field(p.id("obj"), "v"), p.num(1))]))
+        else:
+            body.append(p.if_([p.un("not", p.id("obj"))], [p.block([p.emit([p.str("never")])])]))
     e = lambda: _fail_expr(p, fail)
     ok_tail = p.emit([p.str("not reached")])
     if place == "local":
@@ -214,7 +230,23 @@ def info_case(rng):
                        p.emit([p.str("def%d" % i), p.field(p.id("info"), "linedefined"), p.field(p.id("info"), "lastlinedefined")])]
         if i > 0 and rng.random() < 0.6:
             inner.append(p.callstat(p.call(p.id("fn%d" % (i - 1)), [])))
-        ss.append(p.localfunction("fn%d" % i, p.func([], p.block(inner))))
+        # every way of writing a function: parameter lists (which the 'end' line must not depend on), statement sugar
+        ps = rng.choice([[], [], ["a"], ["a", "b", "c"]])
+        va = rng.random() < 0.3
+        form = rng.random()
+        f = p.func(ps, p.block(inner), va=va, ud=va)
+        if form < 0.4:
+            ss.append(p.localfunction("fn%d" % i, f))
+        elif form < 0.55:
+            ss.append(p.local(["fn%d" % i], [f]))
+        elif form < 0.7:
+            ss += [p.local(["fn%d" % i], []), p.assign([p.id("fn%d" % i)], [f])]
+        elif form < 0.85:
+            ss += [p.local(["fn%d" % i], []), p.funcstat(p.id("fn%d" % i), f)]          # function fnN(...) on a local name
+        else:
+            f = p.func(["self"] + ps, p.block(inner), va=va, ud=va)
+            ss += [p.local(["holder%d" % i], [p.table([])]), p.funcstat(p.field(p.id("holder%d" % i), "m"), f, method=True),
+                   p.local(["fn%d" % i], [p.field(p.id("holder%d" % i), "m")])]
         if rng.random() < 0.5:
             ss.append(p.emit([p.str("gap")]))
     for i in range(nfun):
